@@ -160,6 +160,7 @@ class Observation:
         self.dump = class_dump()
         self.problems = []            # (key, message)
         self.crash = None
+        self.sviews = []              # view<K> through the static type a factory hands out disagreeing with view<K> through const Node&
         self.early = []               # (constant, category stamp during static initialisation of a client TU, stamp in main)
         self.rows = {}                # sym -> row (first variant), with labels collected
         self.variants = variants
@@ -169,6 +170,8 @@ class Observation:
             rc, out, err = C.run_exe(self.probe, args, '')
             cats, absanc, ifaces, noiface, nodes = parse_probe(out)
             for ln in out.splitlines():
+                if ln.startswith('sview\t') and ln not in self.sviews:
+                    self.sviews.append(ln)
                 if ln.startswith('Z '):
                     m = re.match(r'Z (.*) early=(-?\d+) now=(-?\d+)$', ln)
                     if m and v == variants[0]:
@@ -356,6 +359,11 @@ def run(tier):
         more = '' if len(failing) <= MAX_REPORTED else ' (%d classes fail in all; the first %d are reported)' % (len(failing), MAX_REPORTED)
         res.violation('class:' + r['cls'], 'implementation class %s (node built by %s): %s%s' % (r['cls'], r['labels'][0], '; '.join(bad), more),
                       row_replay(o, r, bad))
+    for ln in o.sviews[:MAX_REPORTED]:
+        f = dict(x.split('=', 1) for x in ln.split('\t')[2:])
+        res.violation('static-view:' + f['cls'], 'view<%s> applied to the node built by `%s` through its static type (%s) answers %s, through `const Node&` it answers %s' % (
+            o.code_name.get(int(f['K']), f['K']), ln.split('\t')[1], f['cls'], 'the node' if f['static'] == '1' else 'nothing', 'the node' if f['node'] == '1' else 'nothing'),
+            'static-view %s\n# %s' % (ln.split('\t')[1], ln))
     for what, early, now in o.early:
         if early != now:
             res.violation('static-init:' + what, 'the process-wide constant `%s` carries category %d (%s) when read during the static initialisation of a '
@@ -385,6 +393,7 @@ def run(tier):
     res.cov['live_nodes_observed'] = sum(len(r['labels']) for r in o.rows.values())
     res.cov['view_pairs_checked'] = n_if * len(o.rows)
     res.cov['probe_variants'] = variants
+    res.cov['view_also_asked_through_the_static_type_of_every_factory_result'] = True
     res.cov['constants_read_during_static_initialisation'] = len(o.early)
     dist = {}
     for r in o.rows.values():
